@@ -36,6 +36,10 @@ ASSUMPTIONS = [
     "at the next outbound number); when the send raises the exception is swallowed and the watermark stays assigned",
 ]
 MODELLED_NOT_VERIFIED = [
+    "C04: foreign session-level tags on any frame (36, 123, 7/16, 112, 43, 97, 122, 141, 98/108), role, should_replay, heartbeat "
+    "period, gaps > 1000 and reconnects of the same object are inside the theorems' quantifiers (arbitrary Msg tag lists, Conn, sr, "
+    "Event lists); the correspondence / oracle sample them: 14 decorations x 15 letters exhaustively as single steps and as first "
+    "letter of 2-letter trees, 25% of the random letters decorated, 3% of the random histories of length 25-60",
     "C04: Model/Session*.lean is a hand-written mirror of asyncfix/connection.py + session.py (not extracted); it is "
     "compared with the real connection on the exhaustive single-step slice and on exhaustive / random histories every run",
     "C04: the journal is the abstract store of Model/SessionTypes.lean (C13 ties it to SQLite)",
@@ -56,8 +60,11 @@ SLICE_CLASSES = {
 }
 
 
-def slice_cases(rng):
+def slice_cases(rng, tier="thorough"):
+    # quick: role UNKNOWN only in the two pre-logon states (where the role is still being decided)
     for c in S.single_step_cases(rng, states=list(range(6, 19)), roles=S.ALL_ROLES):
+        if tier == "quick" and c[0].role == 0 and c[0].state > 7:
+            continue
         lab = c[3]
         if lab.startswith("recv:") and lab[5:] in SLICE_CLASSES:
             yield c
@@ -70,15 +77,59 @@ LETTERS = [
     "app@", "app+1", "app+3", "app-1", "app-1pd", "app@pd", "hb@", "hb+2", "treq+1", "rr@",
     "gf@+2", "gf+1", "reset@+5", "reset@-2", "reset=T",
 ]
-EXTRA_LETTERS = ["gf-1", "gf@back", "reset+2+6", "reset-1-1", "tick", "send", "app-none", "app-garbled", "logout@"]
+EXTRA_LETTERS = ["gf-1", "gf@back", "reset+2+6", "reset-1-1", "tick", "send", "app-none", "app-garbled", "logout@",
+                 "app+1500", "gf@+2000", "eof"]
+RECONNECT_LETTERS = ["conn", "sendlogon", "logon@", "logon+2"]
 BACKWARD_LETTERS = {"reset@-2", "reset-1-1"}
+# 'foreign' session-level tags: fields that belong to OTHER message types, as a decoration of ANY letter
+# (written `letter|deco`); a tag the letter's own body already carries is not added a second time
+DECOS = ["36+5", "36-2", "36next", "36zz", "123Y", "123N", "7-16", "112", "43N", "43Y", "97Y", "122", "141Y", "98-108"]
+
+
+def deco_tags(deco, ni, seq, now):
+    if deco == "36+5":
+        return [(36, str(ni + 5))]
+    if deco == "36-2":
+        return [(36, str(max(1, ni - 2)))]
+    if deco == "36next":
+        return [(36, str((seq if isinstance(seq, int) else ni) + 1))]
+    if deco == "36zz":
+        return [(36, "zz")]
+    if deco == "123Y":
+        return [(123, "Y")]
+    if deco == "123N":
+        return [(123, "N")]
+    if deco == "7-16":
+        return [(7, "1"), (16, "0")]
+    if deco == "112":
+        return [(112, "FOREIGN")]
+    if deco == "43N":
+        return [(43, "N")]
+    if deco == "43Y":
+        return [(43, "Y"), (122, S.stamp(now - 3000))]
+    if deco == "97Y":
+        return [(97, "Y")]
+    if deco == "122":
+        return [(122, S.stamp(now - 3000))]
+    if deco == "141Y":
+        return [(141, "Y")]
+    if deco == "98-108":
+        return [(98, "0"), (108, "1")]
+    raise ValueError(deco)
 
 
 def letter_event(a: S.AbsConn, letter: str, now: int):
     """(sr, event) for one letter, numbered relative to the CURRENT expected number of `a`"""
     ni = a.next_in
+    deco = None
+    if "|" in letter:
+        letter, deco = letter.split("|", 1)
 
     def rx(mt, body, seq, pd=False):
+        body = list(body)
+        if deco is not None:
+            have = {t for t, _ in body} | ({43, 122} if pd else set())
+            body += [(t, v) for t, v in deco_tags(deco, ni, seq, now) if t not in have]
         return ("all", ("recv", now, S.defective(a, "none", mt, body, seq, pd, now)))
 
     if letter == "app@":
@@ -132,7 +183,48 @@ def letter_event(a: S.AbsConn, letter: str, now: int):
         return rx("D", [(11, "x")], "1x")
     if letter == "logout@":
         return rx("5", [], ni)
+    if letter == "app+1500":
+        return rx("D", [(11, "veryfar")], ni + 1500)
+    if letter == "gf@+2000":
+        return rx("4", [(123, "Y"), (36, str(ni + 2000))], ni, pd=True)
+    if letter == "eof":
+        return ("all", ("eof", now))
+    if letter == "conn":
+        return ("all", ("conn", "acc" if a.role == 2 else "init"))
+    if letter == "sendlogon":
+        return ("all", ("send", now, ("A", [(98, "0"), (108, str(a.hb))])))
+    if letter == "logon@":
+        return rx("A", [(98, "0"), (108, str(a.hb))], ni)
+    if letter == "logon+2":
+        return rx("A", [(98, "0"), (108, str(a.hb))], ni + 2)
     raise ValueError(letter)
+
+
+def random_letters(rng, a_start: S.AbsConn, k, impl=None):
+    """state-aware random history: decorated letters, reconnects after a disconnect (the SAME object is reused),
+    returns a function choosing the next letter from the current abstract state"""
+    pool = LETTERS if rng.random() < 0.6 else LETTERS + LETTERS + EXTRA_LETTERS
+
+    def nxt(a):
+        r = rng.random()
+        if a.state <= 3:
+            return "conn" if r < 0.75 else rng.choice(["app@", "tick", "send"])
+        if a.state == 6:
+            if a.role != 2 and r < 0.8:
+                return "sendlogon"
+            if a.role == 2 and r < 0.8:
+                return "logon@" if r < 0.65 else "logon+2"
+        if a.state == 7 and r < 0.85:
+            return "logon@" if r < 0.7 else "logon+2"
+        L = rng.choice(pool)
+        if L in ("app-1", "logout@", "eof") and rng.random() > 0.3:
+            L = "app@"  # a too-low frame without PossDupFlag ends the session: keep most histories alive longer
+        if "@" in L or "+" in L or "-" in L:
+            if rng.random() < 0.25 and L not in ("app-none", "app-garbled"):
+                L = L + "|" + rng.choice(DECOS)
+        return L
+
+    return nxt
 
 
 def start_states():
@@ -165,13 +257,82 @@ def parse_event_tokens(text: str):
     raise ValueError(text)
 
 
-def run_letters(impl: S.Impl, start: S.AbsConn, letters, lockstep=True):
-    """run a letter history on the REAL connection; returns steps [(sr, ev, letter, pre_tokens, eff, post_tokens)]"""
+def par_batch(drv, groups, workers=4):
+    """run groups of driver lines (each group self-contained: stateless `sess.step` lines, or one
+    `sess.load` + its `sess.ev` lines) on several driver processes; returns the replies in order"""
+    import threading
+
+    if not groups:
+        return []
+    chunks = [[] for _ in range(min(workers, len(groups)))]
+    sizes = [0] * len(chunks)
+    where = []
+    for g in groups:
+        i = sizes.index(min(sizes))
+        where.append((i, len(chunks[i]), len(g)))
+        chunks[i] += g
+        sizes[i] += len(g)
+    out = [None] * len(chunks)
+    err = []
+
+    def work(i):
+        try:
+            out[i] = drv.batch(chunks[i]) if chunks[i] else []
+        except Exception as e:  # noqa
+            err.append(e)
+
+    ths = [threading.Thread(target=work, args=(i,)) for i in range(len(chunks))]
+    for t in ths:
+        t.start()
+    return ths, out, err, where
+
+
+def par_collect(handle):
+    ths, out, err, where = handle
+    for t in ths:
+        t.join()
+    if err:
+        raise err[0]
+    res = []
+    for (i, off, n) in where:
+        res += out[i][off:off + n]
+    return res
+
+
+def compare_steps(impl, cases, drv, stats=None):
+    """like sess_common.compare_steps, with the model side running on parallel driver processes WHILE the real
+    connection is stepped"""
+    cases = list(cases)
+    lines = [S.step_line(c[0], c[1], c[2]) for c in cases]
+    h = par_batch(drv, [lines[i:i + 500] for i in range(0, len(lines), 500)]) if lines else None
+    results, ils = [], []
+    for case in cases:
+        eff, post = impl.step(case[0], case[1], case[2])
+        results.append((eff, post))
+        ils.append(S.reply(eff, post))
+        if stats is not None:
+            S.note_stats(stats, case[0], case[2], eff, case[3] if len(case) > 3 else None)
+    model = par_collect(h) if h else []
+    dis = []
+    for case, ml, il in zip(cases, model, ils):
+        if il != ml:
+            dis.append({"input": {"conn": case[0].tokens(), "sr": case[1], "event": S.event_tokens(case[2]),
+                                  "label": case[3] if len(case) > 3 else None}, "model": ml, "impl": il})
+    return len(cases), dis, results
+
+
+def run_letters(impl: S.Impl, start: S.AbsConn, letters, lockstep=True, chooser=None, sr_override=None):
+    """run a letter history on the REAL connection; returns steps [(sr, ev, letter, pre_tokens, eff, post_tokens)].
+    `letters` is a list, or a length when `chooser(a)` picks each letter from the current abstract state."""
     impl.load(start)
     a, now, steps = start, T0, []
-    for L in letters:
+    n = letters if chooser else len(letters)
+    for i in range(n):
+        L = chooser(a) if chooser else letters[i]
         now += 250
         sr, ev = letter_event(a, L, now)
+        if sr_override:
+            sr = sr_override
         if not lockstep:
             impl.load(a)
         del impl.eff[:]
@@ -190,14 +351,15 @@ def hist_input(start, steps, upto=None):
 
 def compare_lockstep(impl, drv, runs):
     """runs: [(start, steps)] – model stepped from ITS OWN state (sess.load / sess.ev)."""
-    lines, index = [], []
+    groups, index = [], []
     for hi, (start, steps) in enumerate(runs):
-        lines.append("sess.load " + start.tokens())
+        g = ["sess.load " + start.tokens()]
         index.append(None)
         for si, s in enumerate(steps):
-            lines.append(f"sess.ev {s[0]} {S.event_tokens(s[1])}")
+            g.append(f"sess.ev {s[0]} {S.event_tokens(s[1])}")
             index.append((hi, si))
-    model = drv.batch(lines) if lines else []
+        groups.append(g)
+    model = par_collect(par_batch(drv, groups)) if groups else []
     dis, bad, n = [], set(), 0
     for ml, ix in zip(model, index):
         if ix is None:
@@ -223,11 +385,12 @@ def exhaustive_tree(impl, drv, start, alphabet, depth, stats):
     total, dis = 0, []
     for d in range(depth):
         cases = []
+        alpha_d = alphabet[d] if isinstance(alphabet[0], list) else alphabet
         for a, path in frontier:
-            for L in alphabet:
+            for L in alpha_d:
                 sr, ev = letter_event(a, L, T0 + 250 * (d + 1))
                 cases.append((a, sr, ev, "tree:" + ",".join(path + [L])))
-        n, dd, results = S.compare_steps(impl, cases, drv, None)
+        n, dd, results = compare_steps(impl, cases, drv, None)
         total += n
         dis += dd
         for case, (eff, post) in zip(cases, results):
@@ -265,37 +428,68 @@ def correspondence(ctx):
     stats = {}
     try:
         # (a) single-step slice
-        cases = list(slice_cases(ctx.rng))
-        n1, dis, _ = S.compare_steps(impl, cases, drv, stats)
+        cases = list(slice_cases(ctx.rng, ctx.tier))
+        n1, dis, _ = compare_steps(impl, cases, drv, stats)
         distinct = len({(c[0].tokens(), S.event_tokens(c[2])) for c in cases})
+        # (a2) every letter x every foreign-tag decoration, as single steps from varied states
+        dcases = []
+        k = ctx.rng.randrange(1000)
+        for stt in (8, 10, 11, 12, 17):
+            for role in (1, 2):
+                for L in LETTERS:
+                    for D in DECOS:
+                        k += 1
+                        a = S.with_journal(S.base_state(stt, role, k), "app")
+                        a.sock = True
+                        sr_, ev_ = letter_event(a, L + "|" + D, T0)
+                        dcases.append((a, sr_, ev_, f"deco:{L}|{D}"))
+        n1b, disb, _ = compare_steps(impl, dcases, drv, None)
+        n1 += n1b
+        dis += disb
+        distinct += len(dcases)
         # (b) corpus + random lock-step histories
         runs = []
         starts = start_states()
         for name, e in corpus_runs():
             st = S.parse_conn_tokens(e["start"])
             runs.append((st, run_letters(impl, st, e["letters"])))
-        nh = ctx.n(2000, 12000)
-        alpha_all = LETTERS + EXTRA_LETTERS
-        lens = {}
+        nh = ctx.n(1500, 12000)
+        lens, cfg = {}, {"sr": {}, "hb": {}, "role": {}, "decorated_letters": 0, "reconnect_letters": 0, "long": 0}
         for _ in range(nh):
             name, st = ctx.rng.choice(starts)
-            k = ctx.rng.randint(3, 12)
-            pool = LETTERS if ctx.rng.random() < 0.6 else alpha_all
-            letters = [ctx.rng.choice(pool) for _ in range(k)]
-            # a too-low frame without PossDupFlag ends the session: keep most histories alive longer
-            letters = [L if (L not in ("app-1", "logout@") or ctx.rng.random() < 0.3) else "app@" for L in letters]
-            steps = run_letters(impl, st, letters)
+            st = st.copy()
+            st.hb = ctx.rng.choice([30, 30, 1, 5])
+            sr = ctx.rng.choice(["all", "all", "none", f"d{max(1, st.next_out - 2)}"])
+            long_ = ctx.rng.random() < 0.03
+            k = ctx.rng.randint(25, 60) if long_ else ctx.rng.randint(3, 12)
+            steps = run_letters(impl, st, k, chooser=random_letters(ctx.rng, st, k), sr_override=sr)
             for s in steps:
-                S.note_stats(stats, S.parse_conn_tokens(s[3]), s[1], s[4], "hist:" + s[2])
-            lens[k] = lens.get(k, 0) + 1
+                S.note_stats(stats, S.parse_conn_tokens(s[3]), s[1], s[4], "hist:" + s[2].split("|")[0])
+                cfg["decorated_letters"] += "|" in s[2]
+                cfg["reconnect_letters"] += s[2] in RECONNECT_LETTERS
+            lens[min(k, 25)] = lens.get(min(k, 25), 0) + 1
+            cfg["long"] += long_
+            for key, v in (("sr", sr[0]), ("hb", st.hb), ("role", st.role)):
+                cfg[key][v] = cfg[key].get(v, 0) + 1
             runs.append((st, steps))
         n2, dis2 = compare_lockstep(impl, drv, runs)
         distinct += len({(tuple(s[2] for s in steps), st.tokens()) for st, steps in runs})
         # (c) exhaustive trees
         n3, dis3 = 0, []
         depth_all = ctx.n(3, 4)
-        for name, st in starts:
+        for i, (name, st) in enumerate(starts):
+            if ctx.tier == "quick" and i % 3 != 0:
+                continue  # ACTIVE/1, AWAITING/2, TOO_HIGH/1, HANDLING/2; thorough: all 12
             n, dd = exhaustive_tree(impl, drv, st, LETTERS, depth_all, stats)
+            n3 += n
+            dis3 += dd
+        # (c2) decorated first letter, then every plain letter (a foreign tag shows on the NEXT frames)
+        decorated = [L + "|" + D for L in LETTERS for D in DECOS]
+        for i, (name, st) in enumerate(starts):
+            if ctx.tier == "quick" and i not in (0, 3):
+                continue
+            second = LETTERS if ctx.tier == "thorough" else ["app@", "app+3", "app-1pd", "hb@", "gf@+2", "reset@+5"]
+            n, dd = exhaustive_tree(impl, drv, st, [decorated, second], 2, stats)
             n3 += n
             dis3 += dd
         if ctx.tier == "thorough":
@@ -314,14 +508,17 @@ def correspondence(ctx):
         "rule": "one evaluation = one event run on the real AsyncFIXConnection and on the Lean model, compared on the "
         "canonical effect list and the complete abstract post-state (state, role, counters, watermark, TestReqID, "
         "timestamps, socket, stored counters, journal rows). (a) C04 slice of the exhaustive single-step table; "
-        "(b) corpus + random letter histories (length 3-12) run lock-step; (c) exhaustive letter trees "
-        f"(15 letters, depth {depth_all} from 12 start states" + (", depth 5 from ACTIVE and from AWAITING" if ctx.tier == "thorough" else "")
-        + "), one compared step per tree node from the state the real connection reached, duplicates of a reached state "
+        "(a2) every letter x 14 foreign-tag decorations (36, 123, 7/16, 112, 43, 97, 122, 141, 98/108) as single steps from 5 states x 2 roles; "
+        "(b) corpus + state-aware random letter histories (length 3-12, 3% of length 25-60; 25% of the letters decorated; reconnect of the same "
+        "object after a disconnect; should_replay all / none / one declined; heartbeat period 1 / 5 / 30) run lock-step; (c) exhaustive letter trees "
+        f"(15 letters, depth {depth_all} from {4 if ctx.tier == 'quick' else 12} start states" + (", depth 5 from ACTIVE and from AWAITING" if ctx.tier == "thorough" else "")
+        + "; (c2) decorated first letter x plain second letter) , one compared step per tree node from the state the real connection reached, duplicates of a reached state "
         "expanded once. distinct = distinct (state, event) pairs of (a) + distinct histories of (b) + tree nodes of (c)",
         "samples": [{"input": {"conn": c[0].tokens()[:80], "event": S.event_tokens(c[2])[:160], "label": c[3]}}
                     for c in cases[:: max(1, len(cases) // 4)][:4]],
         "exhaustive": True,
-        "distribution": {"single_step": n1, "lockstep_events": n2, "tree_steps": n3, "history_lengths": lens,
+        "distribution": {"single_step": n1, "decorated_single_steps": n1b, "lockstep_events": n2, "tree_steps": n3,
+                         "history_lengths(25=long 25-60)": lens, "history_config": cfg, "decorations": DECOS,
                          "states": stats.get("state", {}), "events": stats.get("event", {}),
                          "effects": stats.get("effect", {}), "exceptions": stats.get("exception", {})},
         "disagreements": alld,
@@ -603,22 +800,32 @@ def oracle(ctx, disagreements, broken):
         sts = start_states()
         if ctx.tier == "quick" and not broken:
             sts = [x for i, x in enumerate(sts) if i % 2 == (i // 2) % 2]  # 6 of the 12 (both roles occur)
-        budget = ctx.n(30000, 400000) * (4 if broken else 1)
+        budget = ctx.n(15000, 400000) * (4 if broken else 1)
         for name, st in sts:
             for letters in itertools.product(LETTERS, repeat=depth):
                 if stats["events"] > budget:
                     break
                 run_and_check(st, run_letters(impl, st, list(letters)))
-        nrand = ctx.n(1000, 10000) * (4 if broken else 1)
-        pool = LETTERS + LETTERS + EXTRA_LETTERS
+        # every letter with every foreign-tag decoration, followed by in-sequence / too-high traffic
+        dsts = sts if (ctx.tier == "thorough" or broken) else sts[::2]
+        stats["decorated_histories"] = 0
+        for name, st in dsts:
+            for L in LETTERS:
+                for D in DECOS:
+                    for tail in (["app@", "app@"], ["app+3", "app@"]):
+                        run_and_check(st, run_letters(impl, st, [L + "|" + D] + tail))
+                        stats["decorated_histories"] += 1
+        nrand = ctx.n(600, 10000) * (4 if broken else 1)
         names = sorted(starts)
+        stats["long_histories"] = 0
         for _ in range(nrand):
-            st = starts[ctx.rng.choice(names)]
-            k = ctx.rng.randint(2, 14)
-            letters = [ctx.rng.choice(pool) for _ in range(k)]
-            # a too-low frame without PossDupFlag ends the session: keep most histories alive longer
-            letters = [L if (L not in ("app-1", "logout@") or ctx.rng.random() < 0.3) else "app@" for L in letters]
-            run_and_check(st, run_letters(impl, st, letters))
+            st = starts[ctx.rng.choice(names)].copy()
+            st.hb = ctx.rng.choice([30, 30, 1, 5])
+            sr = ctx.rng.choice(["all", "all", "none", f"d{max(1, st.next_out - 2)}"])
+            long_ = ctx.rng.random() < 0.03
+            k = ctx.rng.randint(25, 60) if long_ else ctx.rng.randint(2, 14)
+            stats["long_histories"] += long_
+            run_and_check(st, run_letters(impl, st, k, chooser=random_letters(ctx.rng, st, k), sr_override=sr))
     finally:
         impl.close()
     stats["failures"] = len(failures)
